@@ -240,8 +240,152 @@ def oracle(case) -> core.CaseResult:
     return res
 
 
+# ---------------------------------------------------------------------------
+# part "run": whole simulations, the vertical velocity read from generated forcing files
+# ---------------------------------------------------------------------------
+
+RUN_DT = 60
+STORAGES = ("f8", "f4", "p1", "p2", "p3")
+
+
+@st.composite
+def run_cases(draw):
+    nfiles = draw(st.sampled_from([1, 2, 2, 3, 3]))
+    return dict(jm=draw(st.integers(10, 13)), im=draw(st.integers(10, 13)), seed=draw(st.integers(0, 10**6)),
+                hmin=draw(st.sampled_from([1.0, 5.0, 60.0, 800.0])), ratio=draw(st.sampled_from([1.0, 1.5, 3.0, 50.0])),
+                N=draw(st.sampled_from([2, 3, 5])), wlevels=draw(st.sampled_from(["rho", "w"])),
+                frames=[draw(st.integers(1, 3)) for _ in range(nfiles)],
+                gaps=draw(st.sampled_from([1, 1, 2, 3])),
+                storages=[draw(st.sampled_from(STORAGES)) for _ in range(nfiles)],
+                wfrac=draw(st.floats(0.3, 0.9)), hspeed=draw(st.sampled_from([0.0, 0.0, 0.25])),
+                scheme=draw(st.sampled_from(["EF", "RK4", ""])), mode=draw(st.sampled_from(["adv", "adv", "adv", "off"])),
+                n=draw(st.sampled_from([6, 12])), layout=draw(st.sampled_from(["sparse", "dense"])))
+
+
+def run_oracle(case) -> core.CaseResult:
+    """0 <= Z <= h(cell at the start of the step) in every record of a run with vertical advection, for any way the
+    forcing files store w; the bound on the displacement comes from the largest |w| the files hold at all."""
+    from vlib import e2e, roms, scen
+
+    res = core.CaseResult()
+    rng = np.random.default_rng(case["seed"])
+    jm, im, N, dt = case["jm"], case["im"], case["N"], RUN_DT
+    hmin = case["hmin"]
+    H = hmin * np.exp(rng.uniform(0, np.log(case["ratio"]), (jm, im))) if case["ratio"] > 1 else np.full((jm, im), hmin)
+    H.flat[rng.integers(H.size)] = hmin
+    dx = 200.0
+    G = roms.make_grid(jm, im, N=N, h=H, mask="none", dx=dx, seed=case["seed"], levels="random")
+    G["hc"] = 0.0
+    nfr = sum(case["frames"])
+    wmax = case["wfrac"] * hmin / dt            # |w| dt <= wfrac * (smallest depth) < every depth
+    nw = N if case["wlevels"] == "rho" else N + 1
+    W = rng.uniform(-1, 1, (nfr, nw, jm, im)) * wmax
+    W[:, :, ::2, ::3] = np.sign(W[:, :, ::2, ::3]) * wmax      # many cells at the largest speed
+    usp = case["hspeed"] * dx / dt
+    ang = rng.uniform(0, 2 * np.pi)
+    U = np.full((nfr, N, jm, im - 1), usp * np.cos(ang))
+    V = np.full((nfr, N, jm - 1, im), usp * np.sin(ang))
+    ftimes = [scen.T0 + scen.S(k * case["gaps"] * dt) for k in range(nfr)]
+    nsteps = max(2, (nfr - 1) * case["gaps"]) if nfr > 1 else 3
+    nsteps = min(nsteps, 8)
+    res.cls("vertical_advection_" + ("on" if case["mode"] == "adv" else "off"))
+    res.cls(f"{len(case['frames'])}_forcing_files")
+    if len(set(case["storages"])) > 1:
+        res.cls("files_store_w_differently")
+    wdec_max = 0.0
+    with e2e.workdir() as d:
+        a = 0
+        for n_, cnt in enumerate(case["frames"]):
+            stor = case["storages"][n_]
+            if stor in ("p1", "p2", "p3"):
+                stor = ("i2", wmax / {"p1": 2000.0, "p2": 500.0, "p3": 8000.0}[stor])
+            dec = roms.write_roms(d / f"f_{n_:03d}.nc", G, ftimes[a:a + cnt], U[a:a + cnt], V[a:a + cnt],
+                                  extra={"w": W[a:a + cnt]}, storage=stor)
+            wdec_max = max(wdec_max, float(np.abs(dec["w"]).max()))
+            a += cnt
+        fname = str(d / "f_000.nc") if len(case["frames"]) == 1 else str(d / "f_*.nc")
+        # particles well inside (at most 0.25 cells per step for at most 8 steps), at all depths incl. 0 and h
+        n = case["n"]
+        X = rng.uniform(3.6, im - 4.6, n)
+        Y = rng.uniform(3.6, jm - 4.6, n)
+        X[0], Y[0] = 4.0, 4.0
+        hlo, _ = ref_depth(H, X, Y)
+        Z = rng.uniform(0, 1, n) * hlo
+        Z[1] = 0.0
+        Z[2] = hlo[2]
+        start = scen.T0
+        if nfr > 1 and case["seed"] % 3 == 0:
+            start = scen.T0 + scen.S(dt)   # start between the first two frames, or on the second
+        stop = start + scen.S(nsteps * dt)
+        if stop > ftimes[-1] and nfr > 1:
+            stop = ftimes[-1]
+            nsteps = int((stop - start) / scen.S(dt))
+        if nfr == 1:
+            # a single frame cannot cover a time window: the same field once more at the end
+            roms.write_roms(d / "f_999.nc", G, [stop + scen.S(dt)], U[:1], V[:1], extra={"w": W[:1]}, storage="f8")
+            fname = str(d / "f_*.nc")
+        if nsteps < 1:
+            res.nontrivial = False
+            return res
+        e2e.write_release(d / "rel.rls", [[e2e.iso(start), float(x), float(y), float(z)] for x, y, z in zip(X, Y, Z)],
+                          ["release_time", "X", "Y", "Z"])
+        conf = e2e.base_conf(d, start, stop, dt, fname, d / "rel.rls", advection=case["scheme"] or "EF", period=dt,
+                             layout=case["layout"])
+        if not case["scheme"]:
+            del conf["tracker"]["advection"]
+        conf["grid"]["filename"] = str(d / "f_000.nc")
+        conf["forcing"]["extra_forcing"] = ["w"]
+        conf["state"] = {"instance_variables": {"w": "float"}}
+        if case["mode"] == "adv":
+            conf["tracker"]["vertical_advection"] = True
+        e2e.write_yaml(conf, d / "ladim.yaml")
+        r = e2e.run_main(d / "ladim.yaml")
+        if not res.check(r["status"] == "ok", "run_fails", f"{r['exc']}\n{(r['tb'] or '')[-600:]}"):
+            return res
+        if case["layout"] == "sparse":
+            f = e2e.read_sparse(d / "out.nc")
+            recs = [{int(p): (float(x), float(y), float(z)) for p, x, y, z in zip(rc["pid"], rc["X"], rc["Y"], rc["Z"])}
+                    for rc in f["records"]]
+        else:
+            f = e2e.read_dense(d / "out.nc")
+            recs = []
+            for k in range(len(f["times"])):
+                row = {}
+                for p in range(f["inst"]["X"].shape[1]):
+                    if not np.ma.getmaskarray(f["inst"]["X"])[k, p]:
+                        row[p] = (float(f["inst"]["X"][k, p]), float(f["inst"]["Y"][k, p]), float(f["inst"]["Z"][k, p]))
+                recs.append(row)
+    # premise of the property: the displacement of every step is smaller than every depth of the grid
+    assert wdec_max * dt < hmin, (wdec_max * dt, hmin)
+    res.check(len(recs) == nsteps, "record_count", f"{len(recs)} records, expected {nsteps}")
+    changed = 0
+    for k in range(1, len(recs)):
+        for p, (x1, y1, z1) in recs[k].items():
+            if p not in recs[k - 1]:
+                continue
+            x0, y0, z0 = recs[k - 1][p]
+            lo, hi = ref_depth(H, np.array([x0]), np.array([y0]))
+            if case["mode"] == "off":
+                res.check(z1 == z0, "depth_changed_when_off", f"record {k} pid {p}: Z {z0} -> {z1} with vertical movement off")
+                continue
+            if not (0 <= z0 <= lo[0]):
+                continue   # carried into a shallower cell by the horizontal flow: outside the quantifier
+            changed += z1 != z0
+            res.check(np.isfinite(z1) and 0 <= z1 <= hi[0] * (1 + 1e-12), "depth_outside_column",
+                      f"record {k} pid {p}: Z {z0} -> {z1}, bottom depth of the cell at ({x0}, {y0}) is {hi[0]}; "
+                      f"largest |w| on the files {wdec_max} m/s, dt {dt} s")
+            res.check(abs(z1 - z0) <= wdec_max * dt * (1 + 1e-9) + 1e-12, "moved_further_than_any_w",
+                      f"record {k} pid {p}: Z {z0} -> {z1} is further than the largest |w| on the files "
+                      f"({wdec_max} m/s) times dt {dt} s")
+    res.nontrivial = (case["mode"] == "off" and len(recs) >= 2) or changed >= 3
+    return res
+
+
 def shard(part, n, seed, known):
     stt = core.Stats()
+    if part == "run":
+        core.drive(part, run_cases(), run_oracle, n, seed, stt, known)
+        return stt
     core.drive(part, cases() if part == "column" else roms_cases(), oracle, n, seed, stt, known)
     return stt
 
@@ -251,6 +395,8 @@ def run(ctx):
             for i, k in enumerate(core.split(ctx.n(6000, 60000), 8))]
     jobs += [("stock", k, core.subseed(ctx.seed, "s", i), ctx.known_sigs)
              for i, k in enumerate(core.split(ctx.n(6000, 60000), 8))]
+    jobs += [("run", k, core.subseed(ctx.seed, "r", i), ctx.known_sigs)
+             for i, k in enumerate(core.split(ctx.n(480, 6000), 8))]
     stats = core.Stats()
     for s in core.pmap(shard, jobs):
         stats.merge(s)
@@ -270,4 +416,4 @@ def run(ctx):
 
 
 def replay(part, case):
-    return oracle(case)
+    return run_oracle(case) if part == "run" else oracle(case)
